@@ -1,50 +1,11 @@
-import A2Verif.Props.FsProdos
+import A2Verif.Lemmas.FsProdosEx1
+import A2Verif.Lemmas.FsProdosEx2
+import A2Verif.Lemmas.FsProdosEx3
 /-!
-Kernel-evaluated instances for the concrete ProDOS model: the executable refinement check `historyRefines`
-(`Props/FsProdos.lean`: every step is a transition `stepOk prodosParams` allows between the readings of the **total**
-reader, ends in an image satisfying `InvB`, and has the expected result) on a 10-block volume.  These are not the
-general refinement theorem (not proved for ProDOS); they show that the definitions are satisfiable and guard the
-model against regressions the way a unit test would, inside the kernel.  Each takes 15-50 s.
+Kernel-evaluated instances for the concrete ProDOS model, in three independent files that build in parallel (each well
+under three minutes): `Lemmas/FsProdosEx1.lean` — the formatted 10-block volume satisfies `SInv` (`formatted10_sinv`,
+`format_establishes_inv_small`) and the non-vacuity examples of the theorems that assume `SInv`; `FsProdosEx2.lean` — two
+short histories checked step by step with the executable `historyRefines` (`example_sparse_put_refines`,
+`example_history_refines`); `FsProdosEx3.lean` — finding `prodos-put-first-chunk-hole` on the source as written and as
+repaired (`first_chunk_hole_as_written_breaks`, `first_chunk_hole_repaired_refines`).
 -/
-namespace A2Verif.FsProdos
-open A2Verif.Fs.Prodos
-
-def str (x : String) : Bytes := x.toList.map Char.toNat
-
-/-- `format` establishes the invariant (kernel evaluation on a 10-block volume: the harness ties `format` byte for byte
-on 280 and 1600 blocks; a proof for every size is not done) -/
-theorem format_establishes_inv_small : InvB (formatted 10).raw = true := by decide +kernel
-
-/-- a sparse sapling file (chunks 0 and 2 of 3) is a transition the specification allows: put reads back, length and
-type read back, only free units used, volume well formed and leak free afterwards (kernel evaluation) -/
-theorem example_sparse_put_refines :
-    historyRefines repaired exTime
-      [ (str "B", [], .put (str "b") 6 0x2000 0xC3 1100 [(0, chunkOf 1 512), (2, chunkOf 3 76)], true) ] (formatted 10) = true := by
-  decide +kernel
-
-/-- put, lock, refused delete of the locked file: three transitions the specification allows, the last one with a
-refusal that changes nothing (kernel evaluation) -/
-theorem example_history_refines :
-    historyRefines repaired exTime
-      [ (str "A", [], .put (str "a") 4 0x1234 0xC3 300 [(0, chunkOf 7 300)], true),
-        (str "A", [], .lock (str "A"), true),
-        (str "A", [], .delete (str "a"), false) ] (formatted 10) = true := by
-  decide +kernel
-
-/-- **negative witness, source as written (no `firstHole`)**: a file image without chunk 0 (`{1 ↦ 512 × 'A'}`) is accepted, and
-the image written does not satisfy the invariant — slot 0 of the index block names the index block itself (the
-entry's provisional key pointer), the reader reports `blocks-used-differs-from-reachable`.  The real code at aadfbdc does
-the same: `get` returns chunks 0 and 1, chunk 0 being the index block (directed scenario `prodos-put-first-chunk-hole`) -/
-theorem first_chunk_hole_as_written_breaks :
-    ((COp.put (str "h") 6 0 0xC3 1024 [(1, chunkOf 65 512)]).run asWritten exTime (formatted 10 asWritten)).1 = true ∧
-    InvB ((COp.put (str "h") 6 0 0xC3 1024 [(1, chunkOf 65 512)]).run asWritten exTime (formatted 10 asWritten)).2.raw = false := by
-  decide +kernel
-
-/-- **the same input on the source as repaired**: slot 0 is a hole, the step is a transition the specification allows
-(the stored chunk list `[(1, …)]` reads back index for index: no chunk 0 appears) and ends in an `InvB` image -/
-theorem first_chunk_hole_repaired_refines :
-    historyRefines repaired exTime
-      [ (str "H", [], .put (str "h") 6 0 0xC3 1024 [(1, chunkOf 65 512)], true) ] (formatted 10) = true := by
-  decide +kernel
-
-end A2Verif.FsProdos
